@@ -57,14 +57,32 @@ class ShardWriterNP(ShardWriterBase):
 
             values (dict[str, npt.NDArray[np.generic]]): Attribute values.
         """
+        # Validate before buffering anything: a rejected example must not
+        # leave a partial trace in the buffer and an accepted one must keep
+        # the shard loadable (all per-attribute lists of the same length, no
+        # pickled objects).
+        expected_names = {
+            attribute.name
+            for attribute in self.dataset_structure.saved_data_description
+        }
+        if set(values) != expected_names:
+            raise ValueError(f"Expected exactly the attributes "
+                             f"{sorted(expected_names)} but got "
+                             f"{sorted(values)}.")
+        copies = {name: np.copy(value) for name, value in values.items()}
+        for name, value_copy in copies.items():
+            if value_copy.dtype == object:
+                raise ValueError(f"Attribute {name} cannot be represented as "
+                                 f"a numpy array of a native dtype.")
+
         # Just buffer all values.
         if not self._buffer:
             self._buffer = {
-                name: [np.copy(value)] for name, value in values.items()
+                name: [value_copy] for name, value_copy in copies.items()
             }
         else:
-            for name, value in values.items():
-                self._buffer[name].append(np.copy(value))
+            for name, value_copy in copies.items():
+                self._buffer[name].append(value_copy)
 
     def close(self) -> None:
         """Close the shard file(-s).
